@@ -32,6 +32,7 @@ package store
 //@   before store scanFiles assert appended-only-if-eligible: info != nil && old(err) == nil && !lastret(fs.FileInfo.IsDir, 0) && relPath != "" && called((*Local).shouldIgnore) && !lastret((*Local).shouldIgnore, 0) && lastarg((*Local).shouldIgnore, 1) == relPath && !lastarg((*Local).shouldIgnore, 2) && dir.scanTimeStart - lastret(fs.FileInfo.ModTime, 0) >= dir.MinAge && (dir.shouldAllow == nil || (called(shouldAllow) && lastret(shouldAllow, 0))) && lastret(newLocalFile, 1) == nil && relPath == lastret((*Local).getRelPath, 0) && lastarg((*Local).getRelPath, 1) == path
 //@   on return assert eligible-is-appended: r0 == nil && info != nil && old(err) == nil && called(newLocalFile) && lastret(newLocalFile, 1) == nil && (dir.shouldAllow == nil || (called(shouldAllow) && lastret(shouldAllow, 0))) ==> stored(scanFiles)
 //@   on return assert ignored-directories-are-skipped: info != nil && old(err) == nil && called(fs.FileInfo.IsDir) && lastret(fs.FileInfo.IsDir, 0) && called((*Local).shouldIgnore) && lastret((*Local).shouldIgnore, 0) ==> r0 == filepath.SkipDir
+//@   on return assert skips-only-ignored-directories: filepath.SkipDir != nil && r0 == filepath.SkipDir ==> old(err) == filepath.SkipDir || (info != nil && called(fs.FileInfo.IsDir) && lastret(fs.FileInfo.IsDir, 0) && called((*Local).shouldIgnore) && lastret((*Local).shouldIgnore, 0))
 
 //@ func (*Local).Scan
 //@   on return assert disabled-scans-nothing: called(os.Lstat) && lastret(os.Lstat, 1) == nil ==> len(r0) == 0 && r2 == nil && !called(fileutil.Walk)
